@@ -32,6 +32,7 @@ from liquid.messages import Translations
 from liquid.messages import line_number
 from liquid.parser import get_parser
 from liquid.stringify import to_liquid_string
+from liquid.stringify import to_python_string
 from liquid.tag import Tag
 from liquid.token import TOKEN_EXPRESSION
 from liquid.token import TOKEN_TAG
@@ -163,7 +164,7 @@ class TranslateNode(Node, TranslatableTag):
         message_context = block_scope.pop(self.message_context_var, None)
         if message_context:
             return (
-                str(message_context)
+                to_python_string(message_context, token=self.token)
                 if not isinstance(message_context, str)
                 else message_context
             )  # Just in case we get a Markupsafe object.
